@@ -356,3 +356,384 @@ Proof.
   - intros ep F. vm_compute in F. inversion F. subst. discriminate.
   - vm_compute. reflexivity.
 Qed.
+
+(* ------------------------------------------------------------------ C10 *)
+
+(* ---------------- paging *)
+Lemma firstn_add : forall A a b (l : list A), firstn (a + b) l = firstn a l ++ firstn b (skipn a l).
+Proof.
+  induction a as [|a IH]; intros b l; simpl; [reflexivity|].
+  destruct l; simpl; [now rewrite firstn_nil | now rewrite IH].
+Qed.
+Definition page {A} (lim : nat) (l : list A) (k : nat) : list A := firstn lim (skipn (k * lim) l).
+Lemma pages_concat : forall A (l : list A) lim n,
+  List.concat (map (page lim l) (seq 0 n)) = firstn (n * lim) l.
+Proof.
+  intros A l lim n. induction n as [|n IH]; [reflexivity|].
+  rewrite seq_S, map_app, concat_app, IH. simpl. rewrite app_nil_r. unfold page.
+  replace (lim + n * lim)%nat with (n * lim + lim)%nat by lia. now rewrite firstn_add.
+Qed.
+Lemma paging_complete : forall A (l : list A) lim n, (0 < lim)%nat -> (List.length l <= n * lim)%nat ->
+  List.concat (map (page lim l) (seq 0 n)) = l.
+Proof. intros. rewrite pages_concat. now apply firstn_all2. Qed.
+Lemma get_slice_page : forall A (l : list A) lim k q,
+  q_limit q = QNat lim -> q_cursor q = (match k with O => QAbsent | _ => QNat (k * lim) end) ->
+  get_slice q l = Ok (page lim l k, ((k * lim) + lim)%nat).
+Proof.
+  intros A l lim k q HL HC. unfold get_slice, page. rewrite HL, HC. destruct k; reflexivity.
+Qed.
+
+(* ---------------- the store as a map *)
+Lemma zlookup_app_new : forall {B} k (v : B) l, zlookup k l = None -> zlookup k (l ++ [(k, v)]) = Some v.
+Proof.
+  induction l as [|[k' v'] l IH]; simpl; intros H; [now rewrite Z.eqb_refl|].
+  destruct (k =? k'); [discriminate | now apply IH].
+Qed.
+Lemma zlookup_app_other : forall {B} k k' (v : B) l, k <> k' -> zlookup k (l ++ [(k', v)]) = zlookup k l.
+Proof.
+  induction l as [|[k2 v2] l IH]; simpl; intros H.
+  - destruct (k =? k') eqn:E; [apply Z.eqb_eq in E; congruence | reflexivity].
+  - destruct (k =? k2); [reflexivity | now apply IH].
+Qed.
+Lemma zlookup_remove_same : forall {B} k (l : list (Z * B)), NoDup (map fst l) -> zlookup k (zremove k l) = None.
+Proof.
+  induction l as [|[k' v'] l IH]; simpl; intros ND; [reflexivity|].
+  inversion ND; subst. destruct (k =? k') eqn:E.
+  - apply Z.eqb_eq in E. subst. clear IH ND. induction l as [|[k2 v2] l IH2]; simpl; [reflexivity|].
+    simpl in H1. destruct (k' =? k2) eqn:E2; [apply Z.eqb_eq in E2; subst; exfalso; apply H1; now left|].
+    apply IH2. intro. apply H1. now right. inversion H2; assumption.
+  - simpl. rewrite E. now apply IH.
+Qed.
+Lemma zlookup_replace_same : forall {B} k (v : B) l, zlookup k l <> None -> zlookup k (zreplace k v l) = Some v.
+Proof.
+  induction l as [|[k' v'] l IH]; simpl; intros H; [congruence|].
+  destruct (k =? k') eqn:E; simpl; [now rewrite Z.eqb_refl | rewrite E; now apply IH].
+Qed.
+
+(* ---------------- request level (submodel repository; shells and concept descriptions use the same store functions) *)
+Definition post_sm (x : submodel) : request := rq "/submodels" MPost IdAbsent (BVal false (VSm x)).
+Definition get_sm_rq (i : ident) : request := rq "/submodels/<base64url:submodel_id>" MGet (IdOk i) BNoCtype.
+Definition put_sm (i : ident) (x : submodel) : request := rq "/submodels/<base64url:submodel_id>" MPut (IdOk i) (BVal false (VSm x)).
+Definition del_sm (i : ident) : request := rq "/submodels/<base64url:submodel_id>" MDelete (IdOk i) BNoCtype.
+
+Ltac route := match goal with |- context [find_route routes ?a ?m false] =>
+  let v := eval vm_compute in (find_route routes a m false) in change (find_route routes a m false) with v end.
+Ltac body fn := match goal with |- context [request_body fn ?r] =>
+  let v := eval vm_compute in (body_spec fn) in
+  unfold request_body; change (body_spec fn) with v; cbv beta iota; cbn [r_body r_query rq post_sm put_sm]; cbv beta iota;
+  replace (negb (mem_s "Submodel" constructables)) with false by (vm_compute; reflexivity);
+  change (String.eqb (value_class (VSm ?x)) "Submodel") with true;
+  replace (smode_on "level" Q0) with false by (vm_compute; reflexivity);
+  cbv beta iota
+  end.
+
+Lemma get_existing : forall s i x, zlookup i (st_objs s) = Some (OSm x) ->
+  handle s (get_sm_rq i) = (s, {| status := 200; rtype := AccJson; location := None; pay := PVal (VSm x) |}).
+Proof.
+  intros s i x L. unfold handle, get_sm_rq. cbn [r_accept rq r_rule r_meth]. route.
+  unfold convert_args, conv_id, need_path, bind. cbn [r_aas r_sm r_cd r_qt r_path rq].
+  cbn [handler endpoint_name]. unfold bind, get_sm, the_id. cbn [r_sm rq]. rewrite L.
+  unfold ok, respond, render, self_persisting, persist. cbn [r_accept rq].
+  replace (resp_spec "get_submodel" 0) with (200, false, "level", false) by (vm_compute; reflexivity).
+  cbv beta iota. cbn [smode_on r_query rq Q0 q_core]. 
+  replace (smode_on "level" Q0) with false by (vm_compute; reflexivity).
+  destruct (st_backed s && negb (commits "get_submodel")); [destruct s|]; reflexivity.
+Qed.
+
+Lemma get_unknown : forall s i, (forall x, zlookup i (st_objs s) <> Some (OSm x)) ->
+  handle s (get_sm_rq i) = (s, {| status := 404; rtype := AccJson; location := None; pay := PResult "NotFound" |}).
+Proof.
+  intros s i L. unfold handle, get_sm_rq. cbn [r_accept rq r_rule r_meth]. route.
+  unfold convert_args, conv_id, need_path, bind. cbn [r_aas r_sm r_cd r_qt r_path rq].
+  cbn [handler endpoint_name]. unfold bind, get_sm, the_id, http. cbn [r_sm rq].
+  destruct (zlookup i (st_objs s)) as [[?|x|?]|] eqn:E; try reflexivity. exfalso. now apply (L x).
+Qed.
+
+Lemma post_new : forall s x, zlookup (sm_id x) (st_objs s) = None ->
+  handle s (post_sm x) =
+    ({| st_objs := st_objs s ++ [(sm_id x, OSm x)]; st_files := st_files s; st_backed := st_backed s |},
+     {| status := 201; rtype := AccJson; location := Some (LSm (sm_id x)); pay := PVal (VSm x) |}).
+Proof.
+  intros s x L. unfold handle, post_sm. cbn [r_accept rq r_rule r_meth]. route.
+  unfold convert_args, conv_id, need_path, bind. cbn [r_aas r_sm r_cd r_qt r_path rq].
+  cbn [handler endpoint_name]. unfold bind. body "post_submodel".
+  unfold store_add. cbn [obj_id]. rewrite L. unfold guard, ok, respond, render. cbn [r_accept rq].
+  replace (resp_spec "post_submodel" 0) with (201, false, "no", true) by (vm_compute; reflexivity).
+  cbv beta iota. replace (smode_on "no" Q0) with false by (vm_compute; reflexivity). reflexivity.
+Qed.
+
+Lemma post_duplicate : forall s x o, zlookup (sm_id x) (st_objs s) = Some o ->
+  handle s (post_sm x) = (s, {| status := 409; rtype := AccJson; location := None; pay := PResult "Conflict" |}).
+Proof.
+  intros s x o L. unfold handle, post_sm. cbn [r_accept rq r_rule r_meth]. route.
+  unfold convert_args, conv_id, need_path, bind. cbn [r_aas r_sm r_cd r_qt r_path rq].
+  cbn [handler endpoint_name]. unfold bind. body "post_submodel".
+  unfold store_add. cbn [obj_id]. rewrite L. reflexivity.
+Qed.
+
+Theorem created_then_readable : forall s x, zlookup (sm_id x) (st_objs s) = None ->
+  let '(s1, r1) := handle s (post_sm x) in
+  status r1 = 201 /\ location r1 = Some (LSm (sm_id x)) /\
+  handle s1 (get_sm_rq (sm_id x)) = (s1, {| status := 200; rtype := AccJson; location := None; pay := PVal (VSm x) |}).
+Proof.
+  intros s x L. rewrite (post_new s x L). split; [reflexivity|split; [reflexivity|]].
+  apply get_existing. cbn [st_objs]. now apply zlookup_app_new.
+Qed.
+
+Lemma delete_existing : forall s i x, zlookup i (st_objs s) = Some (OSm x) -> sm_id x = i ->
+  handle s (del_sm i) =
+    ({| st_objs := zremove i (st_objs s); st_files := st_files s; st_backed := st_backed s |},
+     {| status := 204; rtype := AccJson; location := None; pay := PEmpty |}).
+Proof.
+  intros s i x L I. unfold handle, del_sm. cbn [r_accept rq r_rule r_meth]. route.
+  unfold convert_args, conv_id, need_path, bind. cbn [r_aas r_sm r_cd r_qt r_path rq].
+  cbn [handler endpoint_name]. unfold bind, get_sm, the_id. cbn [r_sm rq]. rewrite L.
+  unfold store_remove. cbn [obj_id]. rewrite I, Z.eqb_refl. unfold guard, ok, respond. cbn [r_accept rq].
+  replace (resp_spec "delete_submodel" 0) with (204, false, "no", false) by (vm_compute; reflexivity).
+  reflexivity.
+Qed.
+
+Theorem deleted_then_gone : forall s i x, NoDup (map fst (st_objs s)) ->
+  zlookup i (st_objs s) = Some (OSm x) -> sm_id x = i ->
+  let '(s1, r1) := handle s (del_sm i) in
+  status r1 = 204 /\ status (snd (handle s1 (get_sm_rq i))) = 404 /\ fst (handle s1 (get_sm_rq i)) = s1.
+Proof.
+  intros s i x ND L I. rewrite (delete_existing s i x L I). split; [reflexivity|].
+  rewrite get_unknown; [split; reflexivity|]. cbn [st_objs]. intros y. rewrite zlookup_remove_same by assumption. discriminate.
+Qed.
+
+(* PUT with an unchanged id: what is read afterwards is the merge of the sent document into the
+   stored one (update_from); for a document without nested elements and qualifiers that is the document *)
+Lemma put_existing : forall s i x x', zlookup i (st_objs s) = Some (OSm x) -> st_backed s = false ->
+  handle s (put_sm i x') =
+    (store_set s i (OSm {| sm_id := sm_id x'; sm_ids := sm_ids x'; sm_tok := sm_tok x';
+                           sm_quals := merge_quals (sm_quals x) (sm_quals x');
+                           sm_ch := update_children (sm_ch x) (sm_ch x') |}),
+     {| status := 204; rtype := AccJson; location := None; pay := PEmpty |}).
+Proof.
+  intros s i x x' L B. unfold handle, put_sm. cbn [r_accept rq r_rule r_meth]. route.
+  unfold convert_args, conv_id, need_path, bind. cbn [r_aas r_sm r_cd r_qt r_path rq].
+  cbn [handler endpoint_name]. unfold bind, get_sm, the_id. cbn [r_sm rq]. rewrite L.
+  body "put_submodel".
+  unfold ok, respond, persist, self_persisting. cbn [r_accept rq]. rewrite B.
+  replace (resp_spec "put_submodel" 0) with (204, false, "no", false) by (vm_compute; reflexivity).
+  reflexivity.
+Qed.
+Theorem replaced_then_read : forall s i x x', zlookup i (st_objs s) = Some (OSm x) -> st_backed s = false ->
+  let '(s1, r1) := handle s (put_sm i x') in
+  status r1 = 204 /\
+  pay (snd (handle s1 (get_sm_rq i))) =
+    PVal (VSm {| sm_id := sm_id x'; sm_ids := sm_ids x'; sm_tok := sm_tok x';
+                 sm_quals := merge_quals (sm_quals x) (sm_quals x');
+                 sm_ch := update_children (sm_ch x) (sm_ch x') |}).
+Proof.
+  intros s i x x' L B. rewrite (put_existing s i x x' L B). split; [reflexivity|].
+  erewrite get_existing; [reflexivity|]. unfold store_set. cbn [st_objs]. apply zlookup_replace_same. congruence.
+Qed.
+Lemma merge_quals_nil : forall q, merge_quals [] q = q.
+Proof. intros q. unfold merge_quals. simpl. induction q as [|a q IH]; simpl; [reflexivity|now rewrite IH]. Qed.
+
+(* every mutating handler commits (checked on the generated call table): on a backed store the change
+   is what the next request reads *)
+Definition mutators : list string :=
+  ["post_aas"; "put_aas"; "put_aas_asset_information"; "post_aas_submodel_refs"; "delete_aas_submodel_refs_specific";
+   "put_aas_submodel_refs_submodel"; "delete_aas_submodel_refs_submodel"; "post_submodel"; "put_submodel";
+   "post_submodel_submodel_elements_id_short_path"; "put_submodel_submodel_elements_id_short_path";
+   "delete_submodel_submodel_elements_id_short_path"; "put_submodel_submodel_element_attachment";
+   "delete_submodel_submodel_element_attachment"; "post_submodel_submodel_element_qualifiers";
+   "put_submodel_submodel_element_qualifiers"; "delete_submodel_submodel_element_qualifiers";
+   "post_concept_description"; "put_concept_description"].
+Lemma mutators_commit : forallb commits mutators = true.
+Proof. vm_compute. reflexivity. Qed.
+Lemma persist_committed : forall fn s s', In fn mutators -> persist fn s s' = s'.
+Proof.
+  intros fn s s' I. unfold persist.
+  assert (C : commits fn = true) by (apply (proj1 (forallb_forall _ _) mutators_commit); exact I).
+  rewrite C. now rewrite andb_false_r.
+Qed.
+
+(* ---------------- the invariant "filed under its own id" *)
+Lemma in_zreplace : forall {B} k (v : B) l k' v', In (k', v') (zreplace k v l) -> In (k', v') l \/ (k' = k /\ v' = v).
+Proof.
+  induction l as [|[k2 v2] l IH]; simpl; intros k' v' H; [tauto|].
+  destruct (k =? k2) eqn:E.
+  - destruct H as [H|H]; [inversion H; subst; tauto | tauto].
+  - destruct H as [H|H]; [tauto | destruct (IH _ _ H); tauto].
+Qed.
+Lemma in_zremove : forall {B} k (l : list (Z * B)) x, In x (zremove k l) -> In x l.
+Proof.
+  induction l as [|[k2 v2] l IH]; simpl; intros x H; [tauto|].
+  destruct (k =? k2); [tauto | destruct H; [tauto | right; now apply IH]].
+Qed.
+Lemma own_set : forall s k o, own_ids s -> obj_id o = k -> own_ids (store_set s k o).
+Proof.
+  intros s k o W I k' o' H. unfold store_set in H. cbn [st_objs] in H.
+  destruct (in_zreplace _ _ _ _ _ H) as [H1|[-> ->]]; [now apply W | assumption].
+Qed.
+Lemma own_add : forall s o s', own_ids s -> store_add s o = Ok s' -> own_ids s'.
+Proof.
+  intros s o s' W H. unfold store_add in H. destruct (zlookup (obj_id o) (st_objs s)); [discriminate|].
+  inversion H; subst. intros k o' I. cbn [st_objs] in I. apply in_app_or in I. destruct I as [I|[I|[]]]; [now apply W|].
+  now inversion I.
+Qed.
+Lemma own_remove : forall s k o s', own_ids s -> store_remove s k o = Ok s' -> own_ids s'.
+Proof.
+  intros s k o s' W H. unfold store_remove in H. destruct (obj_id o =? k); [|discriminate].
+  inversion H; subst. intros k' o' I. cbn [st_objs] in I. apply W. eapply in_zremove. exact I.
+Qed.
+Lemma own_files : forall s f, own_ids s -> own_ids (set_files s f).
+Proof. intros s f W k o H. now apply W. Qed.
+Lemma own_sm_id : forall s k x, own_ids s -> get_sm s k = Ok x -> sm_id x = k.
+Proof. intros s k x W H. apply get_sm_ok in H. apply zlookup_in in H. exact (W _ _ H). Qed.
+Lemma own_sh_id : forall s k x, own_ids s -> get_shell s k = Ok x -> sh_id x = k.
+Proof. intros s k x W H. apply get_shell_ok in H. apply zlookup_in in H. exact (W _ _ H). Qed.
+Lemma own_cd_id : forall s k x, own_ids s -> get_cd s k = Ok x -> cd_id x = k.
+Proof. intros s k x W H. apply get_cd_ok in H. apply zlookup_in in H. exact (W _ _ H). Qed.
+Lemma own_sm_or_nested : forall s r x e, own_ids s -> sm_or_nested s r = Ok (x, e) -> sm_id x = the_id (r_sm r).
+Proof.
+  intros s r x e W H. unfold sm_or_nested, bind in H. destruct (get_sm s (the_id (r_sm r))) eqn:G; [|discriminate].
+  apply (own_sm_id _ _ _ W) in G. unfold guard in H.
+  destruct (get_nested a (the_path r)); simpl in H;
+    repeat (match type of H with context [match ?x with _ => _ end] => destruct x end);
+    try discriminate; inversion H; subst; assumption.
+Qed.
+
+Definition body_id_prop (r : request) : Prop :=
+  match r_body r with
+  | BVal _ (VSm x) => sm_id x = the_id (r_sm r)
+  | BVal _ (VShell a) => sh_id a = the_id (r_aas r)
+  | BVal _ (VCd c) => cd_id c = the_id (r_cd r)
+  | _ => True
+  end.
+Definition body_id_matches (r : request) : Prop := r_meth r = MPut -> body_id_prop r.
+Definition is_put (ep : endpoint) : bool :=
+  match ep with
+  | ep_put_aas | ep_put_submodel | ep_put_concept_description | ep_put_aas_submodel_refs_submodel => true
+  | _ => false
+  end.
+
+Lemma request_body_origin : forall fn r v, request_body fn r = Ok v ->
+  exists xml v0, r_body r = BVal xml v0 /\ (v = v0 \/ v = strip_value v0).
+Proof.
+  intros fn r v H. unfold request_body in H. destruct (body_spec fn) as [cls mode].
+  destruct (r_body r) eqn:B; try (vm_compute in H; discriminate).
+  - destruct (mem_s cls constructables); vm_compute in H; discriminate.
+  - destruct (negb (mem_s cls constructables)); [discriminate|].
+    destruct (String.eqb (value_class v0) cls).
+    + inversion H. exists xml, v0. destruct (smode_on mode (r_query r)); auto.
+    + destruct xml; vm_compute in H; discriminate.
+Qed.
+Lemma find_route_in : forall rs rule m seen e, find_route rs rule m seen = REndpoint e ->
+  exists p ms, In (p, ms, e) rs /\ rule_allows ms m = true.
+Proof.
+  induction rs as [|[[p ms] e'] rs IH]; simpl; intros rule m seen e H; [destruct seen; discriminate|].
+  destruct (String.eqb p rule).
+  - destruct (rule_allows ms m) eqn:A.
+    + inversion H; subst. exists p, ms. split; [now left | exact A].
+    + destruct (IH _ _ _ _ H) as [p' [ms' [I A']]]. exists p', ms'. split; [now right | exact A'].
+  - destruct (IH _ _ _ _ H) as [p' [ms' [I A']]]. exists p', ms'. split; [now right | exact A'].
+Qed.
+Definition put_only (x : string * list string * endpoint) : bool :=
+  let '(_, ms, e) := x in
+  if match e with
+     | ep_put_aas | ep_put_submodel | ep_put_concept_description | ep_put_aas_submodel_refs_submodel => true
+     | _ => false
+     end
+  then match ms with [m0] => String.eqb m0 "PUT" | _ => false end else true.
+Lemma put_routes_check : forallb put_only routes = true.
+Proof. vm_compute. reflexivity. Qed.
+Lemma put_method : forall rule m e, find_route routes rule m false = REndpoint e ->
+  (match e with
+   | ep_put_aas | ep_put_submodel | ep_put_concept_description | ep_put_aas_submodel_refs_submodel => true
+   | _ => false
+   end) = true -> m = MPut.
+Proof.
+  intros rule m e F P. destruct (find_route_in _ _ _ _ _ F) as [p [ms [I A]]].
+  pose proof (proj1 (forallb_forall _ _) put_routes_check _ I) as C. unfold put_only in C. rewrite P in C.
+  destruct ms as [|m0 [|? ?]]; try discriminate C. apply String.eqb_eq in C. subst m0.
+  destruct m; try reflexivity; vm_compute in A; discriminate A.
+Qed.
+
+Lemma body_ids : forall fn r v, body_id_prop r -> request_body fn r = Ok v ->
+  match v with
+  | VSm x => sm_id x = the_id (r_sm r)
+  | VShell a => sh_id a = the_id (r_aas r)
+  | VCd c => cd_id c = the_id (r_cd r)
+  | _ => True
+  end.
+Proof.
+  intros fn r v BM H. destruct (request_body_origin _ _ _ H) as [xml [v0 [B [-> | ->]]]];
+    unfold body_id_prop in BM; rewrite B in BM; destruct v0; simpl; auto.
+Qed.
+Lemma get_sm_ref_id : forall a i j, get_sm_ref a i = Ok j -> j = i.
+Proof. unfold get_sm_ref, http. intros a i j H. destruct (zmem i (sh_refs a)); now inversion H. Qed.
+
+Ltac bm2 :=
+  match goal with
+  | H : context [match ?x with _ => _ end] |- _ =>
+      lazymatch x with
+      | context [match _ with _ => _ end] => fail
+      | _ => destruct x eqn:?
+      end
+  end.
+Ltac ownstep W :=
+  match goal with
+  | |- own_ids (set_files _ _) => apply own_files
+  | |- own_ids (store_set _ _ _) => apply own_set; [ | cbn [obj_id sm_id sh_id cd_id shell_with_refs] ]
+  | |- own_ids (put_sm_back _ _ _ _) => unfold put_sm_back
+  | |- own_ids (edit_sm _ _ _ _ _) => unfold edit_sm, put_sm_back
+  | |- own_ids (set_quals_at _ _ _ _ _) => unfold set_quals_at, set_sm_quals, edit_sm, put_sm_back
+  | |- own_ids (if ?b then _ else _) => destruct b
+  | |- own_ids (match ?p with [] => _ | _ :: _ => _ end) => destruct p
+  | |- own_ids ?s => first [exact W | eapply own_add; [exact W | eassumption] | eapply own_remove; [exact W | eassumption]
+                           | eapply own_remove; [ | eassumption]]
+  | |- _ = _ => first [ reflexivity | eapply own_sm_id; eassumption | eapply own_sh_id; eassumption
+                      | eapply own_cd_id; eassumption | eapply own_sm_or_nested; eassumption ]
+  end.
+
+Lemma own_ids_handler : forall ep s r s' resp, own_ids s -> (is_put ep = true -> r_meth r = MPut) -> body_id_matches r ->
+  handler ep s r = Ok (s', resp) -> own_ids s'.
+Proof.
+  intros ep s r s' resp W PM BM0 H.
+  assert (BM : is_put ep = true -> body_id_prop r) by (intro P; exact (BM0 (PM P))).
+  clear PM BM0.
+  destruct ep; cbn [handler endpoint_name] in H; unfold bind, ok, http, guard in H; try specialize (BM eq_refl).
+  all: repeat (bm2; try discriminate).
+  all: try (inversion H; subst; clear H).
+  all: try exact W.
+  all: repeat (ownstep W).
+  all: match goal with B : request_body _ _ = Ok _ |- _ => pose proof (body_ids _ _ _ BM B) as Hid; cbn beta iota in Hid end.
+  all: try exact Hid.
+  all: match goal with G : get_sm_ref _ _ = Ok _ |- _ => apply get_sm_ref_id in G; subst; exact Hid end.
+Qed.
+
+Theorem own_ids_step : forall s r, own_ids s -> body_id_matches r -> own_ids (fst (handle s r)).
+Proof.
+  intros s r W BM. unfold handle.
+  destruct (r_accept r); try exact W.
+  all: destruct (find_route routes (r_rule r) (r_meth r) false) eqn:F; try exact W.
+  all: unfold bind; destruct (convert_args r); try exact W.
+  all: destruct (handler e s r) as [[s' resp]|x] eqn:H; try exact W.
+  all: cbv beta iota; cbn [fst].
+  all: assert (PM : is_put e = true -> r_meth r = MPut) by (intro P; eapply put_method; [exact F | exact P]).
+  all: pose proof (own_ids_handler _ _ _ _ _ W PM BM H) as W'.
+  all: destruct (self_persisting e); [exact W'|].
+  all: unfold persist; destruct (st_backed s && negb (commits (endpoint_name e))); [now apply own_files | exact W'].
+Qed.
+Theorem own_ids_history : forall rs s, own_ids s -> Forall body_id_matches rs -> own_ids (run s rs).
+Proof.
+  induction rs as [|r rs IH]; intros s W F; [exact W|]. inversion F; subst. simpl.
+  apply IH; [now apply own_ids_step | assumption].
+Qed.
+Lemma own_ids_empty : forall b, own_ids (empty b).
+Proof. intros b k o []. Qed.
+
+
+Lemma example_history :
+  let rs := [post_sm example_sm; put_sm 1 example_sm; get_sm_rq 1; del_sm 1; get_sm_rq 1] in
+  Forall body_id_matches rs /\ st_objs (run (empty true) rs) = [] /\
+  map (fun r => status (snd (handle (run (empty true) [post_sm example_sm]) r))) rs = [409; 204; 200; 204; 200].
+Proof.
+  split; [|split; vm_compute; reflexivity].
+  repeat (apply Forall_cons; [intro M; first [discriminate M | vm_compute; auto]|]). apply Forall_nil.
+Qed.
